@@ -30,10 +30,19 @@ Built on `e2_eval.AutoEvaluator` (unknown names are symbols, temporaries are sub
   * `SimpleNamespace(...)`, `dict(...)`, `{...}`, `dict(zip(...))`, dict comprehensions with literal keys, `d.update(...)`, `f(**d)`,
     `ns.x = v`, `setattr / getattr` with literal names, `.items() / .get()` are records by field name.
 
+  * a list filled by `append` (also through `push = acc.append`) at one nesting depth, or once per pass of one symbolic loop, reads like the
+    comprehension it replaces; `{i: f(i) for i ...}` over a symbolic range is keyed by its index; `pairs = zip(...)` bound to a name is walked
+    by the loop that uses it; `reversed`, `map`, `functools.partial / reduce`, `operator.itemgetter / attrgetter / add / matmul ...`, `sum`,
+    `any / all`, `dict.fromkeys`, starred unpacking / arguments / parameters are modelled; import aliases of the module are resolved;
+  * `(X + Y)[sel]` is `X[sel] + Y[sel]` (the TAM slab used for `Ms + Ml`); a local that is read before it is bound on the path taken is an
+    error value, never a global symbol (deleting an allocation is seen); a name bound on one arm of an undecided test only is that value or
+    the opaque `?unbound`.
+
 Nothing of /repo is imported or executed.  Matrix products commute in the formula domain (as everywhere in E2): `np.dot`/`np.matmul`/`@` are
 products, `la.solve(X, Y)` is Y/X, `la.inv(X)` is 1/X, `np.transpose(X)` / `X.transpose()` is `X.T`, `np.add / subtract / multiply / divide /
 negative / square` are the operators.  What cannot be lowered raises `Unsupported` (exit 2): `break`, `while` loops that are not counted
-loops, `for ... else`, a definite `return` inside a loop with a symbolic trip count, call depth > 6.
+loops (up: `i = 0; while i < n`, down: `i = n; while i: i -= 1; ...`), `for ... else`, a definite `return` inside a loop with a symbolic trip
+count, generators with `yield`, call depth > 6.
 """
 from __future__ import annotations
 
@@ -247,25 +256,21 @@ def _set_len_items(x):
     return None
 
 
-def equalities(v, want=True):
-    """pairs of values that are equal whenever the test value `v` has the truth value `want`.  The test is a propositional formula (not / and /
-    or / conditional values from flags set under nested tests) over elementary comparisons; an equality follows when it holds under every
-    assignment of the elementary tests that gives the formula the wanted value (truth table, at most 10 elementary tests).  So chains, De Morgan
-    forms, `any(...)` / `all(...)`, flags accumulated step by step (`ok = a == b; if ok: ok = b == c`) and `len({a, b, c}) == 1` all yield
-    the same pairs."""
-    if not is_rat(v):
-        return []
-    atoms = []          # (key value, pairs that hold when the atom is true)
+class Table:
+    """propositional view of test values: formulas over elementary tests (comparisons, opaque flags), evaluated by truth table"""
 
-    def atom_of(x):
-        """-> (index of the elementary test, polarity) or None for a literal"""
+    def __init__(self):
+        self.atoms = []         # (key value, pairs of values that are equal when the atom is true)
+
+    def atom_of(self, x):
+        """-> (index of the elementary test, negated)"""
         u = unfn(x)
         neg = False
         if u and u[0] in ("cmp:NotEq", "cmp:IsNot") and len(u[1]) == 2:
             x, neg = F.fn("cmp:Eq" if u[0] == "cmp:NotEq" else "cmp:Is", *u[1]), True
         elif u and u[0] in ("cmp:Lt", "cmp:LtE") and len(u[1]) == 2 and const_int(u[1][0]) == (1 if u[0] == "cmp:Lt" else 2) and _set_len_items(u[1][1]) is not None:
-            x, neg = cmp_value("Eq", u[1][0] if u[0] == "cmp:Lt" else F.const(1), u[1][1]), True          # len({..}) > 1  is  not len({..}) == 1
-        for i, (k, _) in enumerate(atoms):
+            x, neg = cmp_value("Eq", F.const(1), u[1][1]), True          # len({..}) > 1  is  not len({..}) == 1
+        for i, (k, _) in enumerate(self.atoms):
             if same(k, x):
                 return i, neg
         u = unfn(x)
@@ -280,20 +285,32 @@ def equalities(v, want=True):
                 if ua and ua[0] == "call:.count" and len(ua[1]) == 2 and unfn(ua[1][0]) and unfn(ua[1][0])[0] == "tuple" \
                         and const_int(b) == len(unfn(ua[1][0])[1]):
                     pairs = [(y, ua[1][1]) for y in unfn(ua[1][0])[1]]          # (a, b, c).count(x) == 3: every item is x
-        atoms.append((x, pairs))
-        return len(atoms) - 1, neg
+        self.atoms.append((x, pairs))
+        return len(self.atoms) - 1, neg
 
-    def build(x):
+    def build(self, x):
         """formula tree: ('lit', bool) / ('atom', i, negated) / (connective, children...)"""
         lit = literal(x)
         if lit is not _NOLIT:
             return ("lit", bool(lit))
         u = unfn(x)
         if u and u[0] in _CONNECTIVES:
-            return (u[0],) + tuple(build(a) for a in u[1])
-        i, neg = atom_of(x)
+            return (u[0],) + tuple(self.build(a) for a in u[1])
+        if u and u[0] in ("cmp:Eq", "cmp:NotEq", "cmp:Is", "cmp:IsNot") and len(u[1]) == 2:
+            a, b = u[1]
+            la, lb = literal(a), literal(b)
+            if la is not _NOLIT and lb is not _NOLIT:
+                return ("lit", (la == lb) == (u[0] in ("cmp:Eq", "cmp:Is")))       # 'absent' == 'absent'
+            for c, o in ((a, b), (b, a)):
+                uc = unfn(c)
+                if uc and uc[0] == "ite" and len(uc[1]) == 3:
+                    # a comparison with a conditional value: status == 'x' with status = ite(t, p, q) is ite(t, p == 'x', q == 'x')
+                    op = u[0][4:]
+                    return ("ite", self.build(uc[1][0]), self.build(cmp_value(op, uc[1][1], o)), self.build(cmp_value(op, uc[1][2], o)))
+        i, neg = self.atom_of(x)
         return ("atom", i, neg)
 
+    @staticmethod
     def val(t, asg):
         k = t[0]
         if k == "lit":
@@ -301,28 +318,54 @@ def equalities(v, want=True):
         if k == "atom":
             return asg[t[1]] != t[2]
         if k == "not":
-            return not val(t[1], asg)
+            return not Table.val(t[1], asg)
         if k == "bool:And":
-            return all(val(c, asg) for c in t[1:])
+            return all(Table.val(c, asg) for c in t[1:])
         if k == "bool:Or":
-            return any(val(c, asg) for c in t[1:])
-        return val(t[2], asg) if val(t[1], asg) else val(t[3], asg)      # ite
+            return any(Table.val(c, asg) for c in t[1:])
+        return Table.val(t[2], asg) if Table.val(t[1], asg) else Table.val(t[3], asg)      # ite
 
-    tree = build(v)
-    n = len(atoms)
-    if n == 0 or n > 10:
+    def models(self, premises):
+        """assignments of the elementary tests under which every (tree, wanted truth) premise holds; None when there are too many tests"""
+        n = len(self.atoms)
+        if n > 10:
+            return None
+        out = []
+        for bits in range(1 << n):
+            asg = [(bits >> i) & 1 == 1 for i in range(n)]
+            if all(self.val(t, asg) == w for t, w in premises):
+                out.append(asg)
+        return out
+
+
+def equalities(v, want=True):
+    """pairs of values that are equal whenever the test value `v` has the truth value `want`.  The test is a propositional formula (not / and /
+    or / conditional values from flags set under nested tests) over elementary comparisons; an equality follows when it holds under every
+    assignment of the elementary tests that gives the formula the wanted value (truth table, at most 10 elementary tests).  So chains, De Morgan
+    forms, `any(...)` / `all(...)`, flags accumulated step by step (`ok = a == b; if ok: ok = b == c`) and `len({a, b, c}) == 1` all yield
+    the same pairs."""
+    if not is_rat(v):
         return []
-    forced = [True] * n
-    sat = False
-    for bits in range(1 << n):
-        asg = [(bits >> i) & 1 == 1 for i in range(n)]
-        if val(tree, asg) == want:
-            sat = True
-            for i in range(n):
-                forced[i] = forced[i] and asg[i]
-    if not sat:
+    tb = Table()
+    tree = tb.build(v)
+    ms = tb.models([(tree, want)])
+    if not ms or not tb.atoms:
         return []
-    return [p for i in range(n) if forced[i] for p in atoms[i][1]]
+    return [p for i, (_, pairs) in enumerate(tb.atoms) if all(m[i] for m in ms) for p in pairs]
+
+
+def entails(premises, v):
+    """the test values `premises` = [(value, truth)] hold: is the test value `v` then true (True), false (False), or open (None)?"""
+    if not is_rat(v) or not all(is_rat(p) for p, _ in premises):
+        return None
+    tb = Table()
+    trees = [(tb.build(p), w) for p, w in premises]
+    goal = tb.build(v)
+    ms = tb.models(trees)
+    if not ms:
+        return None
+    vals = {tb.val(goal, m) for m in ms}
+    return vals.pop() if len(vals) == 1 else None
 
 
 def str_const(v):
@@ -473,6 +516,7 @@ class Interp(AutoEvaluator):
         self.arrs = {}
         self.loops = {}
         self.comps = {}
+        self.keyed = set()          # comprehensions that are dicts keyed by their index
         self.loop_stack = []
         self.events = []
         self.guards = []            # (pairs of values known equal after the guard, If node)
@@ -487,10 +531,15 @@ class Interp(AutoEvaluator):
         self.exit = None            # how the block under evaluation was left (with self.done)
         self.loop_depth = 0
         self.maybe_base = 0
+        self.path = []              # (test value, truth) of the undecided tests / guards the statement under evaluation is control dependent on
         self.unbound = set()        # locals of the activation under evaluation (a read of one that is not in env yet cannot be a global)
         self.cont_raises = False    # the statements that follow the block under evaluation only raise
         self._raise_stack = []
         self.tag_conversions = False    # True: np.asarray / np.atleast_nd(x) is the value arr(x), not x
+        self.sig_defaults = {}
+        for q, f in raw_funcs(ctx, rel).items():
+            ps = [x.arg for x in f.args.posonlyargs + f.args.args]
+            self.sig_defaults[q] = {p_: self.ev(d) for p_, d in zip(ps[::-1], (f.args.defaults or [])[::-1])}
 
     # ------------------------------------------------------------------ entry points
     def run_function(self, fn, args=None):
@@ -858,6 +907,8 @@ class Interp(AutoEvaluator):
                 v = self.env[node.id]
                 if isinstance(v, Lst):
                     return self._lst_value(v)
+                if is_rat(v) and v.depends_on("?unbound"):
+                    v = self._bound_here(v, node.id)
                 return v if self.as_base else self._deref(v)
             if node.id in self.unbound:
                 return Unknown(f"local `{node.id}` is read before it is bound")
@@ -961,6 +1012,25 @@ class Interp(AutoEvaluator):
             links = [cmp_value(type(op).__name__, vals[i], vals[i + 1]) for i, op in enumerate(node.ops)]
             return links[0] if len(links) == 1 else F.fn("bool:And", *links)
         return super()._ev(node)
+
+    def _bound_here(self, v, name, extra=()):
+        """a name that an undecided test bound on one arm only (`ite(t, x, ?unbound)`) is read: under tests that imply t it is x; where nothing
+        implies t the read may hit an unbound local - an error value"""
+        u = unfn(v)
+        if one_sym(v) == "?unbound":
+            return Unknown(f"local `{name}` is not bound on this path")
+        if not (u and u[0] == "ite" and len(u[1]) == 3):
+            return v
+        t, a, b = u[1]
+        r = entails(list(self.path) + list(extra), t)
+        if r is True:
+            return self._bound_here(a, name, extra)
+        if r is False:
+            return self._bound_here(b, name, extra)
+        if one_sym(a) == "?unbound" or one_sym(b) == "?unbound":
+            return Unknown(f"local `{name}` may be unbound here (bound under {t!r} only)")
+        ra, rb = self._bound_here(a, name, tuple(extra) + ((t, True),)), self._bound_here(b, name, tuple(extra) + ((t, False),))
+        return F.fn("ite", t, ra, rb) if is_rat(ra) and is_rat(rb) else Unknown(f"local `{name}` may be unbound here")
 
     def _lst_value(self, l):
         if l.broken:
@@ -1115,6 +1185,12 @@ class Interp(AutoEvaluator):
                     return ("unroll", list(reversed(sp[1])))
                 # every element once: the order of the passes is not modelled, only the pairing inside zip / enumerate (4th item: walked backwards)
                 return ("sym", sp[1], sp[2], not (len(sp) > 3 and sp[3]))
+            if nm == "map" and len(it.args) == 2 and not it.keywords:
+                fv = self.ev(it.args[0])
+                sp = self._iter_spec(it.args[1])
+                if sp[0] == "unroll":
+                    return ("unroll", [self._apply(fv, [x], it) for x in sp[1]])
+                return ("sym", sp[1], lambda i, g=sp[2]: self._apply(fv, [g(i)], it), len(sp) > 3 and sp[3])
             if nm == "enumerate" and len(it.args) == 1 and not it.keywords:
                 sp = self._iter_spec(it.args[0])
                 if sp[0] == "unroll":
@@ -1157,6 +1233,9 @@ class Interp(AutoEvaluator):
             return ("unroll", seq)
         if not is_rat(v):
             raise Unsupported(f"iteration over {ast.unparse(it)[:40]}")
+        n_ = one_sym(v)
+        if n_ and n_.startswith("comp#") and int(n_[5:]) in self.keyed:
+            return ("sym", self.comps[int(n_[5:])][1], lambda i: i)       # the keys of {i: ...}
         dom = self.length(v)
         if not is_rat(dom):
             raise Unsupported("length of the iterated value")
@@ -1194,19 +1273,24 @@ class Interp(AutoEvaluator):
                     self._assign(g.target, x, node)
                     out.append(self.ev(node.elt))
                 return tuple(out)
-            if isinstance(node, ast.DictComp):
-                return Unknown("dict comprehension over a symbolic range")
             lp = self._new_loop(sp[1], node)
             self.loop_stack.append(lp.id)
             try:
                 self._assign(g.target, sp[2](lp.sym), node)
-                elt = self.ev(node.elt)
+                if isinstance(node, ast.DictComp):
+                    if not same(self.ev(node.key), lp.sym):
+                        return Unknown("dict comprehension over a symbolic range with keys that are not the index")
+                    elt = self.ev(node.value)
+                else:
+                    elt = self.ev(node.elt)
             finally:
                 self.loop_stack.pop()
             if not is_rat(elt):
                 return Unknown("comprehension element")
             cid = len(self.comps) + 1
             self.comps[cid] = (lp.name, sp[1], elt)
+            if isinstance(node, ast.DictComp):
+                self.keyed.add(cid)                 # {i: f(i) for i ...}: iterating it gives the indices
             return F.sym(f"comp#{cid}")
         finally:
             self.env = saved
@@ -1251,6 +1335,8 @@ class Interp(AutoEvaluator):
                 target = Closure(self.userfuncs[one_sym(fv)], None)
             elif one_sym(fv) and not one_sym(fv).startswith(("@", "%", "?", "'", '"')):
                 name = one_sym(fv)
+            elif is_rat(fv) and unfn(fv) and unfn(fv)[0].startswith("attr:") and len(unfn(fv)[1]) == 1:
+                name, alias_recv = "." + unfn(fv)[0][5:], unfn(fv)[1][0]          # getattr(fs, "fsolve")(...)
         def arg(x):
             # a function of this module / a closure receives references: a view stays a view (it is read when the callee reads it)
             if target is None:
@@ -1301,6 +1387,11 @@ class Interp(AutoEvaluator):
             params = self.sigs[name]
             while len(pos) < len(params) and params[len(pos)] in kws:
                 pos.append(kws.pop(params[len(pos)]))
+        if name in self.sigs and not kws:
+            # trailing arguments that spell out the default are dropped: calcAM(S, freq, None) is calcAM(S, freq)
+            params, dflt = self.sigs[name], self.sig_defaults[name]
+            while pos and len(pos) <= len(params) and params[len(pos) - 1] in dflt and same(pos[-1], dflt[params[len(pos) - 1]]):
+                pos.pop()
         r = self._model(name, recv, pos, kws, node)
         if r is not NotImplemented:
             return r
@@ -1332,6 +1423,26 @@ class Interp(AutoEvaluator):
         if e is not None:
             e["value"] = val
         return val
+
+    def _apply(self, fv, pos, node):
+        """value of calling the callable value `fv` on argument values (map, sorted keys ...)"""
+        if isinstance(fv, Closure):
+            return self._invoke(fv, list(pos), {}, node)
+        n_ = one_sym(fv) if is_rat(fv) else None
+        if n_ and n_ in self.userfuncs:
+            return self._invoke(Closure(self.userfuncs[n_], None), list(pos), {}, node)
+        if n_ and not n_.startswith(("@", "%", "?", "'", '"')):
+            head, _, tail = n_.partition(".")
+            if head in self.imports and head not in self.env:
+                n_ = self.imports[head] + ("." + tail if tail else "")
+            r = self._model(n_, None, list(pos), {}, node)
+            if r is not NotImplemented:
+                return r
+            if all(is_rat(p_) for p_ in pos):
+                val = F.fn("call:" + n_, *pos)
+                self._log("call", name=n_, recv=None, pos=list(pos), kw={}, node=node, value=val)
+                return val
+        return Unknown("call of a computed callable")
 
     def _lambda(self, node):
         fn = ast.FunctionDef(name="<lambda>", args=node.args, body=[ast.copy_location(ast.Return(value=node.body), node)], decorator_list=[], returns=None,
@@ -1387,6 +1498,17 @@ class Interp(AutoEvaluator):
         if name in OPERATOR2 and len(pos) == 2 and not kws and all(is_rat(p_) for p_ in pos):
             name, pos = OPERATOR2[name], pos
             return self._model(name, None, pos, kws, node)
+        if name in ("functools.reduce", "reduce") and 2 <= len(pos) <= 3 and not kws and self._as_seq(pos[1]) is not None:
+            items = self._as_seq(pos[1])
+            acc_ = pos[2] if len(pos) == 3 else (items[0] if items else Unknown("reduce of an empty sequence"))
+            for x in (items if len(pos) == 3 else items[1:]):
+                acc_ = self._apply(pos[0], [acc_, x], node)
+            return acc_
+        if name == "sum" and 1 <= len(pos) <= 2 and not kws and self._as_seq(pos[0]) is not None and all(is_rat(x) for x in self._as_seq(pos[0])):
+            tot = pos[1] if len(pos) == 2 and is_rat(pos[1]) else F.const(0)
+            for x in self._as_seq(pos[0]):
+                tot = tot + x
+            return tot
         if name in ("operator.neg", "neg") and len(pos) == 1 and not kws and is_rat(pos[0]):
             return -pos[0]
         if name in ("operator.attrgetter", "attrgetter") and len(pos) == 1 and not kws and str_const(pos[0]) is not None and str_const(pos[0]).isidentifier():
@@ -1435,6 +1557,15 @@ class Interp(AutoEvaluator):
                 r.fields[k] = item[1]
             r.fields.update(kws)
             return r
+        n_ = one_sym(recv) if recv is not None and is_rat(recv) else None
+        if n_ and n_.startswith("comp#") and int(n_[5:]) in self.keyed and not pos and name in (".items", ".values", ".keys"):
+            var, dom, elt = self.comps[int(n_[5:])]
+            lp = self._new_loop(dom, node)
+            cid = len(self.comps) + 1
+            if name == ".keys":
+                return recv
+            self.comps[cid] = (lp.name, dom, elt.subs({var: lp.sym}) if name == ".values" else F.fn("tuple", lp.sym, elt.subs({var: lp.sym})))
+            return F.sym(f"comp#{cid}")
         if recv is not None and isinstance(recv, Rec) and recv.kind == "dict":
             if name == ".items" and not pos:
                 return tuple((F.sym(repr(k)), v) for k, v in recv.fields.items())
@@ -1645,10 +1776,12 @@ class Interp(AutoEvaluator):
         self.exit, self.loop_depth, self.maybe_base, self.cont_raises = None, 0, self.maybe, False       # the callee's own returns are definite for the callee
         # the callee's own locals; a closure also sees the (still unbound) locals of the frame that defined it
         self.unbound = (local_names(fn) - set(bound)) | ((self.unbound - set(bound)) if target.frame is frame else set())
+        npath = len(self.path)
         try:
             self.run(fn.body)
             rets, mrets = self.returns, self.maybe_returns
         finally:
+            del self.path[npath:]
             self.depth -= 1
             self.frame = frame
             self.exit, self.loop_depth, self.maybe_base, self.cont_raises, self.unbound = outer
@@ -1881,16 +2014,21 @@ class Interp(AutoEvaluator):
             out[k] = self._merge_val(t, a, b)
         return out
 
-    def _arm(self, stmts, env0, maybe):
-        """run statements from env0; returns (env, how the arm left the block: None / 'return' / 'raise' / 'continue' / 'mixed')"""
+    def _arm(self, stmts, env0, maybe, cond=None):
+        """run statements from env0 (`cond` = (test value, truth) that holds in them); returns (env, how the arm left the block: None / 'return' /
+        'raise' / 'continue' / 'mixed')"""
         self.env = dict(env0)
         self.done = False
         self.exit = None
         self.maybe += 1 if maybe else 0
+        if cond is not None and is_rat(cond[0]):
+            self.path.append(cond)
         try:
             self.run(stmts)
         finally:
             self.maybe -= 1 if maybe else 0
+            if cond is not None and is_rat(cond[0]):
+                self.path.pop()
         env, ended = self.env, (self.exit or "mixed") if self.done else None
         self.done = False
         self.exit = None
@@ -1910,7 +2048,10 @@ class Interp(AutoEvaluator):
         if self.only_raises(body) or self.only_raises(orelse):
             # the error exit: what follows runs with the test known to have failed / held
             dead_body = self.only_raises(body)
-            self.guards.append((equalities(self.ev(st.test), not dead_body), st))
+            tv = self.ev(st.test)
+            self.guards.append((equalities(tv, not dead_body), st))
+            if is_rat(tv):
+                self.path.append((tv, not dead_body))           # holds from here on (popped when the activation ends)
             self.run(orelse if dead_body else body)
             return False
         if self.cont_raises:
@@ -1939,9 +2080,9 @@ class Interp(AutoEvaluator):
         end1, end2 = always_ends(body), always_ends(orelse)
         if end1 and end2:
             n0 = len(self.maybe_returns)
-            _, k1 = self._arm(body, env0, True)
+            _, k1 = self._arm(body, env0, True, (t, True))
             n1 = len(self.maybe_returns)
-            _, k2 = self._arm(orelse, env0, True)
+            _, k2 = self._arm(orelse, env0, True, (t, False))
             r1, r2 = self.maybe_returns[n0:n1], self.maybe_returns[n1:]
             self.env, self.done = env0, True
             self.exit = k1 if k1 == k2 else "mixed"
@@ -1951,12 +2092,19 @@ class Interp(AutoEvaluator):
                 (self.maybe_returns if self.maybe > self.maybe_base else self.returns).append((self._merge_val(t, r1[0][0], r2[0][0]), st))
             return
         if end1 or end2:
-            self._arm(body if end1 else orelse, env0, True)
+            self._arm(body if end1 else orelse, env0, True, (t, bool(end1)))
             self.env = env0
             self.done = False
-            return self.run(orelse if end1 else body)
-        env1, e1 = self._arm(body, env0, True)
-        env2, e2 = self._arm(orelse, env0, True)
+            # what follows is reached only through the other arm
+            if is_rat(t):
+                self.path.append((t, not end1))
+            try:
+                return self.run(orelse if end1 else body)
+            finally:
+                if is_rat(t):
+                    self.path.pop()
+        env1, e1 = self._arm(body, env0, True, (t, True))
+        env2, e2 = self._arm(orelse, env0, True, (t, False))
         if e1 and e2:
             self.env, self.done = env0, True
             self.exit = e1 if e1 == e2 else "mixed"
